@@ -1,18 +1,18 @@
-\* C11 thorough: two edits (both sides emptied, delete then recreate ...)
+\* persistence faults, wider: every pair of pause/resume/reset/terminate followed by a restart, two directory outages
 CONSTANTS
- Mixes <- MixesC11q
- StartPaused = {FALSE}
+ Mixes <- MixesPersist2
+ StartPaused = {FALSE, TRUE}
  Mode = "tws"
  InitTree <- D2
  InitArchive <- D2
- EditVals <- EditsC11
- EditSides = {"alpha", "beta"}
+ EditVals <- EditsC29
+ EditSides = {"alpha"}
  EventSides = {"alpha"}
- MaxEdits = 2
+ MaxEdits = 0
  MaxEvents = 0
  MaxFaults = 0
  MaxTicks = 0
- MaxBreaks = 0
+ MaxBreaks = 2
  Export = FALSE
  RunToBlock = FALSE
  Mut = "none"
